@@ -47,6 +47,9 @@ pub struct StderrGag {
 
 impl StderrGag {
     pub fn new() -> StderrGag {
+        if std::env::var_os("ZV_C05_NOGAG").is_some() {
+            return StderrGag { saved: -1 };
+        }
         unsafe {
             let saved = libc::dup(2);
             let fd = libc::open(b"/dev/null\0".as_ptr() as *const libc::c_char, libc::O_WRONLY);
@@ -242,6 +245,12 @@ fn k10() -> Vec<Vec<u8>> {
 }
 fn k4() -> Vec<Vec<u8>> {
     vec![b"".to_vec(), b"a".to_vec(), b"ab".to_vec(), b"b".to_vec()]
+}
+/// Keys over {a, b} of length 2..3: in the double-array storage the states of `a` (98) and `b` (99) get the same
+/// base (state/4 = 24), and so do their children, so almost every insertion hits an occupied slot and relocates a
+/// state that already has children and grandchildren.
+fn k_collide() -> Vec<Vec<u8>> {
+    ["aa", "ba", "ab", "bb", "aaa", "aba", "baa", "bba"].iter().map(|s| s.as_bytes().to_vec()).collect()
 }
 fn k3() -> Vec<Vec<u8>> {
     vec![b"".to_vec(), b"a".to_vec(), b"ab".to_vec()]
@@ -532,8 +541,8 @@ const PROJ: &str = "projection of the full-oracle subject of the same type (the 
 fn main() {
     zverif::main_with("C05", |reg, _tier| {
         // ---- Patricia storage (default, cache_optimized): the only storage with a remove implementation -> full alphabet
-        reg.add(Seq(spec("ZiporaTrie[default]", zt(cfg_default), k10(), true, ALL, 3, 4)));
-        reg.add(Seq(spec("ZiporaTrie[default]/k4", zt(cfg_default), k4(), true, ALL, 5, 6)));
+        reg.add(Seq(spec("ZiporaTrie[default]", zt(cfg_default), k10(), true, ALL, 3, 5)));
+        reg.add(Seq(spec("ZiporaTrie[default]/k4", zt(cfg_default), k4(), true, ALL, 5, 7)));
         reg.add(Seq(spec("ZiporaTrie[cache_optimized]", zt(ZiporaTrieConfig::cache_optimized), k10(), true, ALL, 3, 4)));
         reg.add(Seq(spec("ZiporaTrie[cache_optimized]/k4", zt(ZiporaTrieConfig::cache_optimized), k4(), true, ALL, 5, 6)));
         // second insertion entry point of the same type
@@ -548,6 +557,10 @@ fn main() {
         const INS_ONLY: &str = "insert-only: remove is checked by the ZiporaTrie.remove[..] subject of this preset";
         reg.add(noted(spec("ZiporaTrie[sparse_optimized]", zt(ZiporaTrieConfig::sparse_optimized), k10(), false, ALL, 4, 5), INS_ONLY));
         reg.add(noted(spec("ZiporaTrie[concurrent_high_performance]", zt(cfg_chp), k10(), false, ALL, 4, 5), INS_ONLY));
+        reg.add(noted(
+            spec("ZiporaTrie[concurrent_high_performance]/collide", zt(cfg_chp), k_collide(), false, ALL, 4, 5),
+            "insert-only; alphabet chosen so that double-array slots collide and states with children are relocated",
+        ));
         // LOUDS storage: keys() and the FSA view are wrong after any insert -> full oracle on K3, projections for the rest
         reg.add(noted(spec("ZiporaTrie[space_optimized]", zt(ZiporaTrieConfig::space_optimized), k3(), false, ALL, 3, 4), INS_ONLY));
         reg.add(noted(spec("ZiporaTrie[space_optimized]/set", zt(ZiporaTrieConfig::space_optimized), k10(), false, SET, 4, 5), PROJ));
@@ -561,6 +574,10 @@ fn main() {
 
         // ---- legacy wrappers (PatriciaTrie / CritBitTrie are plain aliases of ZiporaTrie -> ZiporaTrie[default]); none offers remove/keys
         reg.add(Seq(spec("DoubleArrayTrie/new", Box::new(|| Ok(Box::new(DoubleArrayTrie::new()) as Box<dyn TrieLike>)), k10(), false, ALL, 4, 5)));
+        reg.add(noted(
+            spec("DoubleArrayTrie/new/collide", Box::new(|| Ok(Box::new(DoubleArrayTrie::new()) as Box<dyn TrieLike>)), k_collide(), false, ALL, 4, 5),
+            "alphabet chosen so that double-array slots collide and states with children are relocated",
+        ));
         reg.add(Seq(spec(
             "DoubleArrayTrie[initial_capacity=1]/via-Trie-trait",
             Box::new(|| {
